@@ -897,6 +897,22 @@ func c14Corpus() []c14Doc {
 			out = append(out, c14Doc{s, "corpus:inline", d})
 		}
 	}
+	// hand-built trees with the absent / empty children a parser never produces
+	empty := ast.NewDocument(&ast.Document{})
+	out = append(out, c14Doc{"<built: document without definitions>", "corpus:built", empty})
+	bare := ast.NewDocument(&ast.Document{Definitions: []ast.Node{
+		ast.NewOperationDefinition(&ast.OperationDefinition{Operation: "query"}),
+		ast.NewOperationDefinition(&ast.OperationDefinition{Operation: "query", SelectionSet: ast.NewSelectionSet(&ast.SelectionSet{})}),
+		ast.NewOperationDefinition(&ast.OperationDefinition{Operation: "mutation", Name: ast.NewName(&ast.Name{Value: "M"}),
+			SelectionSet: ast.NewSelectionSet(&ast.SelectionSet{Selections: []ast.Selection{
+				ast.NewField(&ast.Field{}),
+				ast.NewField(&ast.Field{Name: ast.NewName(&ast.Name{Value: "a"}), Arguments: []*ast.Argument{ast.NewArgument(&ast.Argument{})},
+					SelectionSet: ast.NewSelectionSet(&ast.SelectionSet{Selections: []ast.Selection{}})}),
+				ast.NewInlineFragment(&ast.InlineFragment{}),
+				ast.NewInlineFragment(&ast.InlineFragment{SelectionSet: ast.NewSelectionSet(&ast.SelectionSet{Selections: []ast.Selection{ast.NewField(&ast.Field{Name: ast.NewName(&ast.Name{Value: "b"})})}})}),
+			}})}),
+	}})
+	out = append(out, c14Doc{"<built: operations, fields, arguments and inline fragments with absent names, values and selection sets>", "corpus:built", bare})
 	return out
 }
 
